@@ -400,6 +400,17 @@ impl<T> ExactSizeIterator for PinnedPoolIterator<'_, T> {
 
 impl<T> FusedIterator for PinnedPoolIterator<'_, T> {}
 
+#[cfg(folo_verif)]
+impl<T> PinnedPool<T>
+where
+    T: Send + 'static, {
+    /// Verification hook: read-only view of the pool's bookkeeping.
+    #[must_use]
+    pub fn verif_probe(&self) -> crate::verif::PoolProbe {
+        self.inner.lock().expect(NEVER_POISONED).verif_probe()
+    }
+}
+
 #[cfg(test)]
 #[cfg_attr(coverage_nightly, coverage(off))]
 mod tests {
